@@ -6,6 +6,7 @@ import (
 	"io"
 	"net"
 	"sync"
+	"sync/atomic"
 	"time"
 
 	rhp4 "go.sia.tech/core/rhp/v4"
@@ -193,6 +194,11 @@ type stream struct {
 	mr   *memConn // MITM end facing the renter
 	mh   *memConn // MITM end facing the host
 
+	// dead is set before a message is forwarded "then cut": nothing the peer
+	// sends in reaction to that message may pass any more, so that the cut is
+	// atomic with the delivery
+	dead atomic.Bool
+
 	rpcOnce  sync.Once
 	rpcKnown chan struct{}
 	rpc      types.Specifier
@@ -231,9 +237,16 @@ func relayRaw(dst, src *memConn) {
 }
 
 func (s *stream) dispatch(m *Msg, dst *memConn) (stop bool, silent bool) {
+	if s.dead.Load() {
+		s.cut()
+		return true, false
+	}
 	act := Forward
 	if s.hook != nil {
 		act = s.hook(m)
+	}
+	if act == ForwardThenCut {
+		s.dead.Store(true)
 	}
 	switch act {
 	case Cut:
